@@ -19,7 +19,7 @@ ANCHORS = ['phylib.io.merge:_load_multiple_spike_times', 'phylib.io.merge:_load_
            'phylib.io.merge:Merger.write_cluster_data', 'phylib.io.merge:Merger.merge']
 RULE = ('Each case = 1-4 generated probe directories (independent spike counts 4-60, channel counts 2-7, '
         'template counts 2-6, ids with gaps / curated clusters / spikeless templates, spike times on a coarse '
-        'grid so that ties occur inside and across probes, id dtypes int32/uint32/int64, time dtypes '
+        'grid so that ties occur inside and across probes, id dtypes int32/uint32/int64/uint16, exact-zero metadata values, occasionally a probe with 70 or 130 templates, time dtypes '
         'uint64/int64, per-cluster TSV files in all / some / none of the probes) merged by the real '
         'Merger.merge(). C11 oracle: the output files and the returned model are compared, position by '
         'position, with the stable merge of the inputs by (time, probe, original index) - exactly-once '
@@ -63,16 +63,19 @@ def build(case):
     rate = [100., 30000.][int(rng.integers(0, 2))]
     mat_mode = {m: ['all', 'some', 'none'][int(rng.integers(0, 3))] for m in ('wm', 'similar', 'wmi')}
     tsv_mode = {t: ['all', 'some', 'none'][int(rng.integers(0, 3))] for t in TSVS}
-    dt_ind = ['int32', 'uint32', 'int64'][int(rng.integers(0, 3))]
+    dt_ind = ['int32', 'uint32', 'int64', 'mixed'][int(rng.integers(0, 4))]
+    big = int(rng.integers(0, max(1, k - 1))) if (k >= 2 and rng.random() < 0.06) else -1   # a non-last probe with > 64 templates
     specs = []
     for p in range(k):
         def pick(mode):
             return mode == 'all' or (mode == 'some' and (p % 2 == 0))
-        s = random_spec(rng, nc=int(rng.integers(2, 8)), nt=int(rng.integers(2, 7)), nsw=nsw, ns=int(rng.integers(4, 60)),
+        s = random_spec(rng, nc=int(rng.integers(2, 8)), nt=int(rng.integers(2, 7)) if p != big else int(rng.choice([70, 130])),
+                        nsw=nsw, ns=int(rng.integers(4, 60)),
                         rate=rate, n_samples=n_samples, clusters=['same', 'curated'][int(rng.integers(0, 2))],
                         wm=pick(mat_mode['wm']), similar=pick(mat_mode['similar']), wmi_file=pick(mat_mode['wmi']),
-                        features='sparse', tfeatures=True, dtype_ind=dt_ind, nloc=2, tfeat_nloc=2,
-                        dtype_ids=['int32', 'uint32', 'int64'][int(rng.integers(0, 3))],
+                        features='sparse', tfeatures=True, nloc=2, tfeat_nloc=2,
+                        dtype_ind=dt_ind if dt_ind != 'mixed' else ['int64', 'uint32', 'int32'][p % 3],
+                        dtype_ids=['int32', 'uint32', 'int64', 'uint16'][int(rng.integers(0, 4))],
                         dtype_times=['uint64', 'int64'][int(rng.integers(0, 2))],
                         spikeless=['none', 'none', 'middle', 'last'][int(rng.integers(0, 4))],
                         ncdat_extra=int(rng.integers(0, 3)), permute_map=bool(rng.integers(0, 2)))
@@ -84,7 +87,7 @@ def build(case):
                 for c in ids.tolist():
                     if rng.random() < 0.8:
                         v = ['good', 'mua', 'noise'][int(rng.integers(0, 3))] if 'KSLabel' in t else \
-                            repr(float(np.round(rng.uniform(0, 100), 3)))
+                            (repr(float(np.round(rng.uniform(0, 100), 3))) if rng.random() < 0.8 else ['0.0', '0'][int(rng.integers(0, 2))])
                         rows.append('%d\t%s' % (c, v))
                 s.tsv[t] = '\n'.join(rows) + '\n'
         specs.append(s)
@@ -119,7 +122,7 @@ def _run(case, ctx, d, which):
         ps = probe_of[order]
         cross_tie = bool(((np.diff(ts) == 0) & (np.diff(ps) != 0)).any())
     sizes_differ = len(set(s.n_channels for s in specs)) == k and len(set(s.n_templates for s in specs)) == k
-    nontriv = (k >= 2 and cross_tie) or k >= 3 if which == 'C11' else (k >= 3 and sizes_differ) or (k >= 2 and info['dt_ind'] == 'uint32')
+    nontriv = (k >= 2 and cross_tie) or k >= 3 if which == 'C11' else (k >= 3 and sizes_differ) or (k >= 2 and info['dt_ind'] in ('uint32', 'mixed'))
     desc = {'seed': case['seed'], 'info': info, 'probes': [s.describe() for s in specs]}
     ctx.count(1, key=hkey(tuple(case['seed']), which), nontrivial=bool(nontriv),
               cell=('k%d' % k, 'ind_' + info['dt_ind'], 'wm_' + info['mat_mode']['wm']))
